@@ -311,6 +311,59 @@ def eval_reassign(fam, tname, d, d2):
     return 'reassign|' + tname, viols
 
 
+# Decimals with more digits than the 28-digit context (exact expansions of binary floats, as the documented float -> Decimal
+# promotion produces them): every single component operation rounds exactly once, so x - y and x + (-y) differ
+LONG = [D(0.1), D(0.2), D(0.3), D(0.7), D(1), D(-0.45), D(0)]
+
+
+def eval_longdec(fam, ia, ib):
+    ca, cb = [LONG[i] for i in ia], [LONG[i] for i in ib]
+    va, vb = Vector(*ca), Vector(*cb)
+    viols = []
+    sc = core.enc(('longdec', ia, ib))
+    k = D(3)
+    for op, th, exp in (('add', lambda: comps(va + vb), [x + y for x, y in zip(ca, cb)]),
+                        ('sub', lambda: comps(va - vb), [x - y for x, y in zip(ca, cb)]),
+                        ('from-points', lambda: comps(Vector(Point(*ca), Point(*cb))), [y - x for x, y in zip(ca, cb)]),
+                        ('point-move', lambda: comps(Point(*ca).move(vb).pv()), [x + y for x, y in zip(ca, cb)]),
+                        ('mul', lambda: comps(va * k), [x * k for x in ca]),
+                        ('rmul', lambda: comps(k * va), [k * x for x in ca]),
+                        ('index', lambda: comps(va), list(ca))):
+        r = lib.call(th)
+        if isinstance(r, lib.Raised):
+            viols.append(Viol('C18|long-decimal|%s|raises:%s' % (op, r.cls), sc, tdesc(exp), repr(r), '%s over 55-digit Decimals' % op))
+        elif not same_exact(r, exp):
+            viols.append(Viol('C18|long-decimal|%s|not-the-single-component-operation' % op, sc, [str(x) for x in exp], [str(x) for x in r],
+                              '%s over 55-digit Decimals differs from the component formula evaluated once per component' % op))
+    return 'long-decimal', viols
+
+
+def eval_points_mixed(fam, t1, t2, i, which):
+    """two Points with coordinates of type t1; one coordinate of one of them is assigned a value of the more general type t2
+    (Point.__setitem__ / attribute assignment store it as given); Vector(P1, P2) is promoted as a whole.  Only int Points:
+    the coordinate differences are taken first, and float - Fraction / float - Decimal follow Python's own rules."""
+    c1 = {'int': int, 'float': float, 'Fraction': F, 'Decimal': D}
+    a, b = [c1[t1](x) for x in (1, 1, 3)], [c1[t1](x) for x in (4, -2, 5)]
+    new = {'Fraction': F(1, 3), 'float': 0.25, 'Decimal': D('0.5')}[t2]
+    pa, pb = Point(*a), Point(*b)
+    tgt, lst = (pa, a) if which == 0 else (pb, b)
+    if i == 0:
+        tgt.x = new
+    else:
+        tgt[i] = new
+    lst[i] = new
+    want_t = c1[t2]
+    exp = [want_t(y) - want_t(x) for x, y in zip(a, b)]
+    r = lib.call(lambda: comps(Vector(pa, pb)))
+    sc = core.enc(('points-mixed', t1, t2, i, which))
+    if isinstance(r, lib.Raised):
+        return 'points-mixed', [Viol('C18|points-mixed|%s<-%s|raises:%s' % (t1, t2, r.cls), sc, tdesc(exp), repr(r), 'Vector(P1, P2) raised')]
+    if not same_exact(r, exp):
+        return 'points-mixed', [Viol('C18|points-mixed|%s<-%s|not-promoted-as-a-whole' % (t1, t2), sc, tdesc(exp), tdesc(r),
+                                     'Vector(P1, P2) after one coordinate of a %s Point was assigned a %s' % (t1, t2))]
+    return 'points-mixed', []
+
+
 SAME = {'int': lambda x: int(x), 'float': lambda x: float(x), 'Decimal': lambda x: D(x), 'Fraction': lambda x: F(x)}
 
 
@@ -406,6 +459,10 @@ def eval_scene(fam, s):
         return eval_tiny(fam, s[1], s[2])
     if k == 'reassign':
         return eval_reassign(fam, s[1], s[2], s[3])
+    if k == 'longdec':
+        return eval_longdec(fam, s[1], s[2])
+    if k == 'points-mixed':
+        return eval_points_mixed(fam, s[1], s[2], s[3], s[4])
     if k == 'promo-seq':
         return eval_promo_seq(fam, s[1], s[2], s[3])
     if k == 'reassign-mixed':
@@ -482,6 +539,10 @@ def families(tier):
     fams.append(ListFamily('tiny-differences', [('tiny', a, b) for a in tv[::3] for b in tv], chunk=400))
     ds = A.D1 if tier == 'quick' else A.D2
     fams.append(ListFamily('reassign', [('reassign', t, d, d2) for t in ('int', 'float', 'Fraction') for d in ds[::2] for d2 in ds], chunk=200))
+    idx = list(product(range(len(LONG)), repeat=3))
+    fams.append(ListFamily('long-decimal', [('longdec', ia, ib) for ia in (idx[::7] if tier == 'quick' else idx) for ib in idx], chunk=1500))
+    fams.append(ListFamily('points-mixed', [('points-mixed', t1, t2, i, w) for t1, t2 in (('int', 'Fraction'), ('int', 'float'), ('int', 'Decimal'))
+                                            for i in range(3) for w in (0, 1)], chunk=50))
     k4 = ('int', 'float', 'Decimal', 'Fraction')
     trip = list(product(k4, repeat=3))
     fams.append(ListFamily('promotion-sequence', [('promo-seq', c, ka, kb) for c in ('Vector', 'Vector-list', 'Point') for ka in trip for kb in trip if ka != kb], chunk=400))
